@@ -14,6 +14,8 @@ CONSTANTS
   ACSTAMPCHECK = TRUE
   TRAVOFF = 0
   RETAINCHECK = TRUE
+  TT = 8
+  MTC = 64
 CONSTRAINT Report
 INVARIANT TraceInv
 CHECK_DEADLOCK FALSE
